@@ -3,7 +3,7 @@ from harness import common, nsoracles, sysimg, sysprops
 from harness.props import celeaf, namesleaf, nlinkleaf, rrleaf, rrplaceleaf, relocleaf
 
 MODULE = 'C08'
-RECIPES = ['ce_gap_plus', 'ce_gap_exact', 'ce_gap_minus', 'deep_tree', 'reloc_churn', 'long_symlinks', 'fat_dir_churn', 'symlink_ce_release', 'ce_second_block_release']
+RECIPES = ['ce_gap_plus', 'ce_gap_exact', 'ce_gap_minus', 'deep_tree', 'reloc_churn', 'reloc_same_names', 'long_symlinks', 'fat_dir_churn', 'symlink_ce_release', 'ce_second_block_release']
 
 
 def oracle(b, report):
